@@ -64,4 +64,5 @@ let () =
   Registry.register "timingrange" timingrange;
   Registry.register "silence" silence;
   Registry.register "silencegarble" silence;
-  Registry.register "silencepartial" silence
+  Registry.register "silencepartial" silence;
+  Registry.register "silencewindow" silence
